@@ -799,7 +799,8 @@ class _PerAxisInterpolator(_Interpolator):
 
         if out is None:
             out_shape = out_shape_from_meshgrid(norm_distances)
-            out_dtype = self.values.dtype
+            # Weighted sums of non-floating values are floating point
+            out_dtype = np.result_type(self.values.dtype, np.float16)
             out = np.zeros(out_shape, dtype=out_dtype)
         else:
             out[:] = 0.0
@@ -812,7 +813,7 @@ class _PerAxisInterpolator(_Interpolator):
         # axis, resulting in a loop of length 2**ndim
         for lo_hi, edge in zip(product(*([['l', 'h']] * len(indices))),
                                product(*edge_indices)):
-            weight = np.array([1.0], dtype=self.values.dtype)
+            weight = np.array([1.0], dtype=out.dtype)
             # TODO(kohr-h): determine best summation order from array strides
             for lh, w_lo, w_hi in zip(lo_hi, low_weights, high_weights):
 
